@@ -29,7 +29,7 @@ harness.Simulation._teardown = td
 seed = int(os.environ.get("VERIF_SEED", "0"))
 if a.replay:
     rp = json.load(open(a.replay))
-    res, rec = runner.run_once(mod, a.tier, 0, 0, replay=rp["tapes"])
+    res, rec = runner.run_once(mod, a.tier, 0, 0, replay=rp["tapes"], scenario=rp.get("scenario"))
 else:
     res, rec = runner.run_once(mod, a.tier, seed, a.index)
 print("digest", res.digest, "harness_error", res.harness_error)
